@@ -15,6 +15,10 @@ const (
 	blockSize = 512 * 1024 * 1024
 )
 
+// ExtendUnit 内存映射文件的扩展单位
+// 未正常关闭的内存映射文件, 其物理大小保持为该单位的整数倍
+const ExtendUnit = blockSize
+
 type MMap struct {
 	file        *os.File
 	activeMap   mmap.MMap // 当前活动映射区域
